@@ -247,6 +247,27 @@ class Sectionable(BaseObject):
         """
         return self._sections
 
+    def _check_no_cycle(self, obj):
+        """
+        Raises a ValueError if *obj* is this object or one of its ancestors;
+        adding it as a child would turn the tree into a cycle.
+        """
+        curr = self
+        while curr is not None:
+            if curr is obj:
+                raise ValueError("Cannot add an object to itself or to one of its descendants.")
+            curr = curr.parent
+
+    def _adopt(self, obj):
+        """
+        Makes this object the parent of *obj*, which has just been added to one of
+        the child-lists, and removes *obj* from the child-list of its previous parent.
+        """
+        old_parent = getattr(obj, "_parent", None)
+        if old_parent is not None and old_parent is not self:
+            old_parent.remove(obj)
+        obj._parent = self
+
     def insert(self, position, section):
         """
         Insert a Section at the child-list position. A ValueError will be raised,
@@ -259,9 +280,10 @@ class Sectionable(BaseObject):
         if isinstance(section, BaseSection):
             if section.name in self._sections:
                 raise ValueError("Section with name '%s' already exists." % section.name)
+            self._check_no_cycle(section)
 
             self._sections.insert(position, section)
-            section._parent = self
+            self._adopt(section)
         else:
             raise ValueError("Can only insert objects of type Section.")
 
@@ -273,8 +295,9 @@ class Sectionable(BaseObject):
         """
         from odml.section import BaseSection
         if isinstance(section, BaseSection):
+            self._check_no_cycle(section)
             self._sections.append(section)
-            section._parent = self
+            self._adopt(section)
         elif isinstance(section, Iterable) and not isinstance(section, str):
             raise ValueError("Use extend to add a list of Sections.")
         else:
